@@ -62,6 +62,22 @@ CL_V1 = "V1_var_std_broadcast_intermediate_nnz_times_extent"
 CL_T1 = "T1_dot_coo_coo_resets_column_buffer_per_row"
 CL_E1 = "E1_scalar_operand_broadcast_to_full_shape_2pow60"
 
+# the smallest input of each finding class, as a stand-alone program (for the reader of a violation record)
+MINIMAL_REPRO = {
+    CL_G1: "import numpy as np, sparse; x = sparse.COO(np.array([[1],[2],[3]]), np.array([5]), shape=(10, 10**6, 10**6)); "
+           "sparse.GCXS.from_coo(x, compressed_axes=(0,)).sum(axis=0)   # MemoryError: index pointer of 10^12+1 entries",
+    CL_G2: "import numpy as np, sparse; x = sparse.COO(np.array([[1],[2],[3]]), np.array([5]), shape=(10, 10**6, 10**6)); "
+           "sparse.GCXS.from_coo(x, compressed_axes=(0,))[1]   # MemoryError: enumerates the 10^12 selected columns",
+    CL_V1: "import numpy as np, sparse; r = np.random.default_rng(0); c = np.stack([r.integers(0, 16, 50), r.integers(0, 30, 50), "
+           "r.integers(0, 2**20, 50)]); x = sparse.COO(c, np.ones(50, dtype=np.int64), shape=(16, 2**20, 2**20)); "
+           "x.var(axis=1)   # x - mean(keepdims) has 50 * 2^20 stored elements; GiBs of temporaries, MemoryError under a 3 GiB limit",
+    CL_T1: "import numpy as np, sparse; a = sparse.COO(np.array([[0],[0]]), np.array([1]), shape=(10**6, 1000)); "
+           "b = sparse.COO(np.array([[0],[0]]), np.array([1]), shape=(1000, 10**6)); a @ b   "
+           "# _dot_coo_coo executes next_[:] = -1 (10^6 entries) for each of the 10^6 result rows: minutes",
+    CL_E1: "import numpy as np, sparse; sparse.COO(np.array([[5],[7]]), np.array([1]), shape=(2**31, 2**31)) * 2   "
+           "# ValueError: array is too big (np.broadcast_to(2, shape) in _Elemwise._get_func_coords_data); same for 2^30 x 2^30",
+}
+
 # ============================================================================ implementation side
 _WARM = False
 
@@ -921,6 +937,7 @@ def campaign(build, tier, seed, report, budget=1):
                      "code": code, "meaning": CODE_MEANING[code], "case": small,
                      "impl": {k: v for k, v in (r or {}).items() if k in ("k", "exc", "cls", "msg", "hang", "secs", "rss_mb", "shape", "repr", "crash")},
                      "limits": {"address_space": "baseline + 3 GiB", "seconds": TLIMIT},
+                     "minimal_repro": MINIMAL_REPRO.get(clause_of(c, r, code)),
                      "replay_py": replay_program(c)})
     cov = report["coverage"]
     cov["evaluations"] = len(cases)
